@@ -1,8 +1,8 @@
 #!/bin/sh
-# Accept the current tree: record every obligation that discharges (3 consecutive runs) in baseline/obligations.json
-export GOFLAGS=-mod=mod GOPROXY=off GOSUMDB=off GOTOOLCHAIN=local
+# Accept the current tree: record every obligation that discharges (after two passing runs) in baseline/<prop>.json
 cd /verif
 for p in "$@"; do
-  for k in 1 2; do bin/govc -prop $p >/dev/null || { echo "accept: $p does not pass (run $k)"; exit 1; }; done
-  bin/govc -prop $p -write-baseline | tail -1
+  for k in 1 2; do ./check $p quick >/dev/null || { echo "accept: $p does not pass (run $k)"; exit 1; }; done
+  VERIF_WRITE_BASELINE=1 VERIF_EVID=/tmp/govc-accept-evid ./check $p quick | tail -1
 done
+rm -rf /tmp/govc-accept-evid
